@@ -50,6 +50,36 @@ def gen_exhaustive(cls, n, max_edges, prefix="x"):
     return cases
 
 
+def gen_hub(cls, rng, count, prefix="h"):
+    """few nodes, adjacency lists with hundreds of entries (parallel edges, self-loops), then removals"""
+    cases = []
+    for ci in range(count):
+        n = rng.randint(2, 4)
+        keys = rng.sample(range(1, 60), n)
+        steps = ["new %d %d" % (k, rng.randint(-5, 5)) for k in keys]
+        for j in range(rng.randint(150, 400)):
+            u = rng.randrange(n)
+            v = u if rng.random() < 0.1 else rng.randrange(n)
+            steps.append("con %d %d %d" % (u, v, rng.randint(0, 50)))
+        steps.append("snap")
+        for j in range(rng.randint(20, 50)):
+            r = rng.random()
+            u, v = rng.randrange(n), rng.randrange(n)
+            if r < 0.6:
+                steps.append("dis %d %d" % (u, keys[v]))
+            elif r < 0.7:
+                steps.append("try %d %d %d" % (u, v, rng.randint(0, 50)))
+            elif r < 0.85:
+                steps.append("con %d %d %d" % (u, v, rng.randint(0, 50)))
+            elif r < 0.92:
+                steps.append("qry %d %d" % (u, keys[v]))
+            else:
+                steps.append("iso %d" % u)
+            steps.append("snap")
+        cases.append(Case("%s%s%d" % (prefix, cls, ci), cls, steps, dict(kind="hub-history")))
+    return cases
+
+
 def gen_random(cls, rng, count, maxnodes=8, minlen=100, maxlen=400, prefix="r"):
     cases = []
     for ci in range(count):
